@@ -363,8 +363,8 @@ func (*BinaryStringExprNode) GetType() NodeType {
 }
 
 func (node *BinaryStringExprNode) IsSeekable() bool {
-	return (node.op == BinaryOpEQ || node.op == BinaryOpNEQ) &&
-		(node.left.IsConst() || node.right.IsConst())
+	// seeking only answers whether the set contains the value. For != every element has to be looked at
+	return node.op == BinaryOpEQ && (node.left.IsConst() || node.right.IsConst())
 }
 
 func (node *BinaryStringExprNode) EvalBoolWithSeek(s Symbols, cursor TypeSeekableSetCursor) bool {
